@@ -39,6 +39,12 @@ def generate(repo, emit, src, func_body):
         oks.append((loop + adv) in b and 'item1=iter_init(obj);' in b)
     emit('seq_cmp_shape_ok', 'Definition seq_cmp_shape_ok : bool := true.   (* Array_Cmp, List_Cmp, Tuple_Cmp: parallel walk, length tie-break *)' if all(oks) else None)
 
+    # which walk Tuple_Cmp uses over `self` (always defined: the model must keep building)
+    b = norm(func_body(src('src/Tuple.c'), r'static\s+int\s+Tuple_Cmp\s*\([^)]*\)\s*\{'))
+    by_iter = 'Tuple_Iter_Next(self,item0)' in b or 'iter_next(self,item0)' in b
+    emit('tuple_cmp_self_by_index', 'Definition tuple_cmp_self_by_index : bool := %s.   (* source: %s *)'
+         % (('false', 'item0 = Tuple_Iter_Next(self, item0)') if by_iter else ('true', 'i++; item0 = t->items[i]')))
+
     b = norm(func_body(src('src/Tree.c'), r'static\s+int\s+Tree_Cmp\s*\([^)]*\)\s*\{'))
     tl = ('while(true){if(item0isTerminalanditem1isTerminal){return0;}if(item0isTerminal){return-1;}'
           'if(item1isTerminal){return1;}c=cmp(item0,item1);if(c<0){return-1;}if(c>0){return1;}'
